@@ -181,7 +181,16 @@ func typeKey(t types.Type) string {
 }
 
 // sortOf maps a Go type to an SMT sort, declaring datatypes on demand.
+// textType: the abstract content of a byte string (spec-only).  Two strings have
+// the same text iff they are equal byte for byte; spec functions over text are
+// ordinary uninterpreted functions, so composing them needs no quantifiers.
+var textType = types.NewNamed(types.NewTypeName(0, nil, "text", nil), types.NewStruct(nil, nil), nil)
+
 func (c *Ctx) sortOf(t types.Type) string {
+	if t == textType {
+		c.decl("sort:Txt", "(declare-sort Txt 0)")
+		return "Txt"
+	}
 	switch u := t.Underlying().(type) {
 	case *types.Basic:
 		switch {
